@@ -3,7 +3,7 @@
     sumbool, sumor map to their OCaml counterparts; N, Z, positive, nat,
     string and ascii stay the extracted Coq datatypes. *)
 From Coq Require Import Extraction ExtrOcamlBasic.
-From MP4 Require Import Types IsoTables Track Writer SampleTable IsoFile Fragment Reader AnyBox.
+From MP4 Require Import Types IsoTables Track Writer SampleTable IsoFile Fragment Reader AnyBox WriterMoov.
 From MP4 Require Tables.
 
 Extraction Language OCaml.
@@ -38,5 +38,7 @@ Extraction "model.ml"
   mt_bitrate mt_video_profile mt_sequence_parameter_set mt_picture_parameter_set mt_audio_profile mt_sample_freq_index mt_channel_config
   mt_dec_specific rd_metadata md_title md_year md_poster md_summary show_moov show_ftyp show_moof show_emsg
   (* AnyBox.v *)
-  dec_box_any dec_any enc_any size_any type_any show_any struct_name_any wfin wout any_defaults.
+  dec_box_any dec_any enc_any size_any type_any show_any struct_name_any wfin wout any_defaults
+  (* WriterMoov.v *)
+  mux_bytes.
 Cd "../../coq".
